@@ -278,12 +278,19 @@ func (r *rw) rewrite(f *ast.File) ([]byte, bool, error) {
 			}
 		case *ast.SelectorExpr:
 			if r.pkgOf(x.X) == "sync/atomic" {
-				if x.Sel.Name == "Value" {
+				switch n := x.Sel.Name; {
+				case n == "Value" || n == "Bool" || n == "Int32" || n == "Int64" || n == "Uint32" || n == "Uint64" || n == "Pointer":
+					// the types: atomic.Bool -> vsched.AtomicBool, atomic.Pointer[T] -> vsched.AtomicPointer[T]
 					x.X = ast.NewIdent("vsched")
-					x.Sel = ast.NewIdent("AtomicValue")
+					x.Sel = ast.NewIdent("Atomic" + n)
 					r.changed = true
-				} else {
-					r.fail(x.Pos(), "sync/atomic.%s is not modelled by vsched", x.Sel.Name)
+				case atomicFuncs[n]:
+					// the function forms: atomic.AddInt32(&x, 1) -> vsched.AtomicAddInt32(&x, 1)
+					x.X = ast.NewIdent("vsched")
+					x.Sel = ast.NewIdent("Atomic" + n)
+					r.changed = true
+				default:
+					r.fail(x.Pos(), "sync/atomic.%s is not modelled by vsched", n)
 				}
 			}
 			if r.pkgOf(x.X) == "time" && x.Sel.Name == "Timer" {
@@ -369,6 +376,17 @@ func dropUnusedImports(data []byte) []byte {
 	}
 	return buf.Bytes()
 }
+
+// atomicFuncs: the function forms of sync/atomic that vsched models.
+var atomicFuncs = func() map[string]bool {
+	m := map[string]bool{}
+	for _, op := range []string{"Load", "Store", "Add", "Swap", "CompareAndSwap"} {
+		for _, t := range []string{"Int32", "Int64", "Uint32", "Uint64"} {
+			m[op+t] = true
+		}
+	}
+	return m
+}()
 
 func addImport(f *ast.File, path string) {
 	spec := &ast.ImportSpec{Path: &ast.BasicLit{Kind: token.STRING, Value: strconv.Quote(path)}}
